@@ -2355,35 +2355,97 @@ def guarded(ctx: Ctx, name, fn):
                  f"crash-{name}: stream `{name}` stopped with {type(e).__name__}: {str(e)[:120]} ({where})")
 
 
-def run(ctx: Ctx):
-    """the streams (`_run`); a rehearsal on a scratch copy (PYPOSE_REPO set to something else than /repo) regenerates the tracked
-    generated tables from /repo afterwards — the obligations over the regenerated tables have been re-checked by stream `static` by
-    then, and the next run on the real tree must not start from the tables of a mutated one"""
+# ----------------------------------------------------------------------------- generated tables: one C06 run at a time
+# `lean/Pose/Gen/*.lean` are tracked files shared by every C06 process.  Everything that reads or writes them — regenerating, the
+# lake build of the obligations over them (check.py's audit and stream `static`), putting them back — happens under an exclusive
+# `flock` on lean/.gen.lock, so concurrent runs (a rehearsal on a scratch tree and a run on /repo) serialise instead of handing
+# each other the tables of a mutated tree.  A killed process drops the lock (the OS does); whatever it left behind is regenerated
+# by the next run before it builds anything.
+import fcntl  # noqa: E402
+import sys  # noqa: E402
+
+_GEN_LOCK = None
+
+
+def gen_lock_acquire():
+    global _GEN_LOCK
+    if _GEN_LOCK is None:
+        f = open(extract.VERIF / "lean" / ".gen.lock", "w")
+        fcntl.flock(f, fcntl.LOCK_EX)
+        _GEN_LOCK = f
+
+
+def gen_lock_release():
+    global _GEN_LOCK
+    if _GEN_LOCK is not None:
+        try:
+            fcntl.flock(_GEN_LOCK, fcntl.LOCK_UN)
+            _GEN_LOCK.close()
+        finally:
+            _GEN_LOCK = None
+
+
+def regenerate_from_reference():
+    """the tracked tables as /repo (the reference tree) gives them — whatever PYPOSE_REPO says"""
+    if not os.path.isdir("/repo/pypose"):
+        return []
+    saved = os.environ.get("PYPOSE_REPO")
+    os.environ["PYPOSE_REPO"] = "/repo"
     try:
-        _run(ctx)
+        _, ch = extract.regenerate()
+        return (["Handled.lean"] if ch else []) + extract.regenerate_all()["changed"]
     finally:
-        if os.environ.get("PYPOSE_REPO", "/repo").rstrip("/") != "/repo" and os.path.isdir("/repo/pypose"):
-            # not "the content at the start of this run": two rehearsals running at the same time would hand each other the tables of
-            # a mutated tree — regenerate from the reference tree instead
-            saved = os.environ["PYPOSE_REPO"]
-            os.environ["PYPOSE_REPO"] = "/repo"
-            try:
-                _, ch = extract.regenerate()
-                back = (["Handled.lean"] if ch else []) + extract.regenerate_all()["changed"]
-            finally:
-                os.environ["PYPOSE_REPO"] = saved
-            if back:
-                ctx.notes.append(f"scratch rehearsal: generated tables {back} regenerated from /repo at the end of the run")
+        if saved is None:
+            os.environ.pop("PYPOSE_REPO", None)
+        else:
+            os.environ["PYPOSE_REPO"] = saved
 
 
-def _run(ctx: Ctx):
+def _scratch():
+    return os.environ.get("PYPOSE_REPO", "/repo").rstrip("/") != "/repo"
+
+
+if os.path.basename(sys.argv[0] if sys.argv else "") == "check.py" and "C06" in " ".join(sys.argv).upper():
+    # check.py imports this module BEFORE its lake build / axiom audit: take the lock now and hold it until the tables phase of run()
+    # is over (or the process ends: --replay), and start from the reference tables — a rehearsal that was killed may have left others
+    gen_lock_acquire()
+    regenerate_from_reference()
+
+
+def run(ctx: Ctx):
+    """tables phase under the lock (regenerate from the tree under test, re-check the obligations over the regenerated tables, and —
+    for a rehearsal on a scratch copy — put the reference tables back), then the streams"""
+    gen_lock_acquire()
+    try:
+        names = _run_tables(ctx)
+    finally:
+        try:
+            if _scratch():
+                back = regenerate_from_reference()
+                if back:
+                    ctx.notes.append(f"scratch rehearsal: generated tables {back} regenerated from /repo after the obligations over them were re-checked")
+        finally:
+            gen_lock_release()
+    _run(ctx, names)
+
+
+def _run_tables(ctx: Ctx):
+    torch.set_grad_enabled(True)
+    torch.set_num_threads(1)
+    originals()                      # remember the pristine torch attributes before anything patches them
+    names = stream_regen(ctx)
+    from . import util_c06c as B3
+    guarded(ctx, "static", lambda: B3.stream_static(ctx))
+    return names
+
+
+def _run(ctx: Ctx, names):
     torch.set_grad_enabled(True)
     # one intra-op thread: every tensor here is tiny or elementwise; on the shared box the OpenMP pool of 4 threads made
     # a 65537-item Sim3.Log take 30 s (0.07 s single-threaded) when the machine was oversubscribed
     torch.set_num_threads(1)
     originals()                      # remember the pristine torch attributes before anything patches them
     snap = snapshot_globals()
-    names = stream_regen(ctx)
     # round 5 (class 32): before ANYTHING else has run — baseline of every entry point, then every op on degenerate shapes
     from . import util_c06e as B5
     guarded(ctx, "poison", lambda: B5.stream_poison(ctx))
@@ -2396,7 +2458,6 @@ def _run(ctx: Ctx):
     guarded(ctx, "alias", lambda: stream_alias(ctx))
     guarded(ctx, "reuse", lambda: stream_reuse(ctx))
     from . import util_c06c as B3
-    guarded(ctx, "static", lambda: B3.stream_static(ctx))
     guarded(ctx, "torchb", lambda: B3.stream_torchb(ctx))
     guarded(ctx, "sig", lambda: B3.stream_sig(ctx))
     guarded(ctx, "effects", lambda: B3.stream_effects(ctx, names))
